@@ -174,8 +174,9 @@ fn ref_walk(m: &Model, own: &str, depth: usize, o: &Opts, chain: &mut Vec<String
     }
     let in_window = depth >= o.min;
     let passes = match o.filter {
-        1 => dirish,
-        2 => filish,
+        // (4: files() then dirs() - "filter down to just directories" is what the last call says; 5: the reverse)
+        1 | 4 => dirish,
+        2 | 5 => filish,
         3 => yielded_name(&ypath).contains('a'),
         _ => true,
     };
@@ -256,6 +257,8 @@ fn collect(es: Entries, o: &Opts, strip: &str, bound: usize) -> Vec<Item> {
     e = match o.filter {
         1 => e.dirs(),
         2 => e.files(),
+        4 => e.files().dirs(),
+        5 => e.dirs().files(),
         _ => e,
     };
     if o.contents_first {
@@ -298,7 +301,7 @@ fn opts_class(o: &Opts) -> String {
         "min={},max={},filter={},follow={},order={},contents_first={}",
         o.min.min(3),
         if o.max == usize::MAX { "inf".to_string() } else { o.max.to_string() },
-        ["none", "dirs", "files", "filter_p"][o.filter as usize % 4],
+        ["none", "dirs", "files", "filter_p", "files-then-dirs", "dirs-then-files"][o.filter as usize % 6],
         o.follow,
         ["none", "name", "dirs_first", "files_first", "custom"][o.order as usize % 5],
         o.contents_first
@@ -577,7 +580,7 @@ pub fn all_opts() -> Vec<Opts> {
     let mut v = vec![];
     for (min, max) in windows {
         for max_first in [false, true] {
-            for filter in 0..4u8 {
+            for filter in 0..6u8 {
                 for follow in [false, true] {
                     for order in 0..5u8 {
                         for contents_first in [false, true] {
@@ -594,7 +597,7 @@ pub fn all_opts() -> Vec<Opts> {
 }
 
 pub fn run(c: &Ctx) {
-    c.set_rule("five hand-made trees aimed at name-prefix confusions, shared targets, self/ancestor links, chains of links and a wide directory (300 entries whose names differ in case, punctuation, length and byte width) (full option product from 4-5 roots each, both backends) and proptest-generated trees (<=25 entries, depth <=5, 12 adversarial names incl. multi-byte/space/dot names, links to earlier entries of any kind, dangling links, links to ancestor directories; one tree in ten with a 60-level directory chain, deeper than the descriptor cap) x the FULL cross-product of entries() options: depth window {(0,0),(0,1),(0,2),(0,inf),(1,1),(1,2),(1,inf),(2,2),(2,inf),(3,inf)} in both call orders x filter {none, dirs(), files(), filter_p(name contains 'a')} x follow x ordering {none, sort_by_name, dirs_first, files_first, custom reverse-name sort} x contents_first x descriptor cap {default, 1, 2 via hook H3} = 4800 option sets per tree, from the root and from one inner directory; Memfs always; on Stdfs (tree materialised with std::fs) one tree in four with a seeded sixth of the option sets. Oracle: reference traversal over the model: multiset equality of (path, alt, kind flags) incl. LinkLooping items, exact sequence when an ordering is set, parent-before/after-contents otherwise, termination bound 4*(entries+1)*(links+1). Listing helpers paths/dirs/files/all_* on every path (dir, file, link, missing) vs the model: absolute, distinct, name-sorted, exclude the argument, agree with exists/is_dir/is_file. Non-trivial = option set with >=2 non-default options on a tree with a nested directory (and a link when follow); distinct by (tree, root, options).");
+    c.set_rule("five hand-made trees aimed at name-prefix confusions, shared targets, self/ancestor links, chains of links and a wide directory (300 entries whose names differ in case, punctuation, length and byte width) (full option product from 4-5 roots each, both backends) and proptest-generated trees (<=25 entries, depth <=5, 12 adversarial names incl. multi-byte/space/dot names, links to earlier entries of any kind, dangling links, links to ancestor directories; one tree in ten with a 60-level directory chain, deeper than the descriptor cap) x the FULL cross-product of entries() options: depth window {(0,0),(0,1),(0,2),(0,inf),(1,1),(1,2),(1,inf),(2,2),(2,inf),(3,inf)} in both call orders x filter {none, dirs(), files(), filter_p(name contains 'a'), files() then dirs(), dirs() then files() (the last call decides)} x follow x ordering {none, sort_by_name, dirs_first, files_first, custom reverse-name sort} x contents_first x descriptor cap {default, 1, 2 via hook H3} = 7200 option sets per tree, from the root and from one inner directory; Memfs always; on Stdfs (tree materialised with std::fs) one tree in four with a seeded sixth of the option sets. Oracle: reference traversal over the model: multiset equality of (path, alt, kind flags) incl. LinkLooping items, exact sequence when an ordering is set, parent-before/after-contents otherwise, termination bound 4*(entries+1)*(links+1). Listing helpers paths/dirs/files/all_* on every path (dir, file, link, missing) vs the model: absolute, distinct, name-sorted, exclude the argument, agree with exists/is_dir/is_file. Non-trivial = option set with >=2 non-default options on a tree with a nested directory (and a link when follow); distinct by (tree, root, options).");
     c.assume("windows with min>max (builder clamping) are not generated; trees in which a followed link points at another link are excluded for follow runs (counted); generated Stdfs trees have no dangling links; the hand-made chain tree has one: on the real filesystem a dangling link is neither dir nor file (Memfs: a file), the reference follows the backend");
     let opts = all_opts();
     c.note("option_sets_per_tree", opts.len());
